@@ -201,52 +201,79 @@ def c17_r2(ctx):
 @rule('C06', 'R2', 'the watermark frontier is the minimum over all upstream replicas and is None until every replica has one')
 def c06_r2(ctx):
     facts = ctx.facts
-    cf = facts.method(WF, 'compute_frontier')
-    fam = facts.family(cf)
-    joins = []
+    # The frontier function, whatever its form (fold + helper, loop with accumulators, all()/min() adapters ...); read on the
+    # helper-inlined body of `update` (compute_frontier is a private helper) and its closures:
+    #   (a) the replica watermarks are combined with a minimum and with nothing else (min / Iterator::min / a `<` selection),
+    #   (b) "every replica has a watermark" is established by a test of Some/None on the entries,
+    #   (c) the Some(..) frontier is produced only under that condition.
+    up0 = facts.method(WF, 'update')
+    fam = facts.family(up0)
+    MINS = ('std::cmp::min', 'std::cmp::Ord::min', 'std::iter::Iterator::min', 'std::iter::Iterator::min_by', 'std::iter::Iterator::min_by_key')
+    MAXS = ('std::cmp::max', 'std::cmp::Ord::max', 'std::iter::Iterator::max', 'std::iter::Iterator::max_by', 'std::iter::Iterator::max_by_key',
+            'std::iter::Iterator::last', 'std::iter::Iterator::next', 'std::iter::Iterator::sum', 'std::iter::Iterator::nth')
+    mins, others, tests = [], [], []
+    helper_fns = []
     for f in fam:
-        for bi, t in q.calls_suffix(f, 'watermark_frontier::opt_join'):
-            joins.append((f, bi, t))
-    if not joins:
-        raise AnchorMissing('compute_frontier does not call opt_join')
-    for f, bi, t in joins:
-        fnarg = None
         sym = q.sym(facts, f)
-        x = strip(sym.operand(t['args'][2]))
-        fnarg = x[1] if x[0] == 'fn' else render(x)
-        ctx.inst('compute_frontier|opt_join', {'at': t['at'], 'combiner': fnarg})
-        if fnarg != 'std::cmp::min':
-            ctx.viol('%s|combiner' % cf.path, t['at'],
-                     'the watermark frontier combines replica watermarks with `%s`, it must be std::cmp::min' % fnarg, None)
-        # all & x.is_some()
-        ands = []
-        for blk in f.blocks:
-            for s in blk['s']:
-                if s['k'] == 'assign' and s['rv']['r'] == 'bin' and s['rv']['op'] == 'BitAnd':
-                    ands.append(render(strip(sym.rvalue(s['rv']))))
-        ok = any('is_some' in a for a in ands)
-        ctx.inst('compute_frontier|complete', {'conjunctions': ands})
-        if not ok:
-            ctx.viol('%s|completeness' % cf.path, f.at,
-                     'compute_frontier no longer conjoins `x.is_some()` over all replicas: the frontier could be emitted '
-                     'before every upstream replica has produced a watermark', None)
-    # opt_join body: (Some,Some) -> f(a,b)
-    oj = facts.one(r'watermark_frontier::opt_join$')
-    ind = [t for _, t in oj.calls() if t['callee'].get('indirect')]
-    ctx.inst('opt_join|indirect-call', {'calls of the combiner': len(ind)})
-    if len(ind) != 1:
-        ctx.viol('%s|combiner-call' % oj.path, oj.at, 'opt_join must apply its combiner exactly once (found %d calls)' % len(ind), None)
-    # returns None unless complete
-    p = q.pe(facts, cf)
-    rets = p.paths(lambda b, st: cf.blocks[b]['t']['t'] == 'return')
-    # the block that copies `min` into _0 must be guarded by complete == true
-    for bi, blk in enumerate(cf.blocks):
-        for s in blk['s']:
-            if s['k'] == 'assign' and s['lhs'] == [0] and s['rv']['r'] == 'use':
+        for bi, t in f.calls():
+            pth = t['callee'].get('path') or ''
+            rs = t['callee'].get('resolved') or ''
+            fnargs = [strip(sym.operand(a)) for a in t['args']]
+            fnargs = [x[1] for x in fnargs if x[0] == 'fn']
+            if pth in MINS or any(x in MINS for x in fnargs):
+                mins.append(t['at'])
+            if pth in MAXS[:5] or any(x in MAXS[:5] for x in fnargs):
+                others.append((t['at'], pth if pth in MAXS else fnargs))
+            if pth.endswith('Option::<T>::is_some') or pth.endswith('Option::<T>::is_none') or any(x.endswith('::is_some') or x.endswith('::is_none') for x in fnargs):
+                tests.append(t['at'])
+            # a private free helper that receives the combiner (opt_join): its body must apply it
+            if 'watermark_frontier::' in pth and fnargs:
+                helper_fns.append(pth)
+    ctx.inst('frontier|combiner', {'minimum taken at': mins, 'other selections': [a for a, _ in others], 'Some/None tests at': tests})
+    if others:
+        ctx.viol('%s|combiner' % WF, others[0][0], 'the watermark frontier combines replica watermarks with `%s`; it must be the minimum: a block '
+                 'would forward a watermark that some upstream replica has not reached yet' % (others[0][1],), None)
+    if not mins:
+        ctx.viol('%s|combiner' % WF, up0.at, 'no minimum (std::cmp::min / Iterator::min) over the replica watermarks is taken when the frontier is recomputed', None)
+    if not tests:
+        ctx.viol('%s|completeness' % WF, up0.at,
+                 'the frontier computation no longer tests the entries for Some/None: the frontier could be emitted '
+                 'before every upstream replica has produced a watermark', None)
+    for hp in set(helper_fns):
+        oj = facts.fn(hp, required=False)
+        if oj is None:
+            continue
+        ind = [t for _, t in oj.calls() if t['callee'].get('indirect')]
+        ctx.inst('%s|indirect-call' % hp.rsplit('::', 1)[-1], {'calls of the combiner': len(ind)})
+        if len(ind) != 1:
+            ctx.viol('%s|combiner-call' % oj.path, oj.at, '%s must apply its combiner exactly once (found %d calls)' % (hp.rsplit('::', 1)[-1], len(ind)), None)
+    # (c) in the function that computes the frontier: the value stored into self.front / returned as the new frontier is Some only
+    # under a condition (a bool established by the completeness test); a compute_frontier that returns the minimum unconditionally
+    # has no branch at all between the scan and the return
+    cf = facts.method(WF, 'compute_frontier', required=False)
+    if cf is not None:
+        guarded = False
+        for bi, blk in enumerate(cf.blocks):
+            if blk['cleanup']:
+                continue
+            for s_ in blk['s']:
+                if s_['k'] == 'assign' and s_['lhs'] == [0] and not (s_['rv']['r'] == 'agg' and s_['rv'].get('v') == 'None'):
+                    dnf = q.cond_of_block(facts, cf, bi)
+                    ctx.inst('compute_frontier|return-min|%d' % bi, {'conditions': q.show_dnf(dnf)[:4]})
+                    if q.cond_has(dnf, lambda a: a[0] in ('bool', 'is', 'isnot', 'isin')):
+                        guarded = True
+                    else:
+                        ctx.viol('%s|incomplete-front' % cf.path, s_['at'],
+                                 'compute_frontier returns the minimum on a path that is not guarded by "all replicas have a watermark"', None)
+            t_ = blk['t']
+            if t_['t'] == 'call' and t_.get('dest') == [0]:
                 dnf = q.cond_of_block(facts, cf, bi)
-                ctx.inst('compute_frontier|return-min', {'conditions': q.show_dnf(dnf)})
-                if not q.cond_has(dnf, lambda a: a[0] == 'bool' and a[2] is True):
-                    ctx.viol('%s|incomplete-front' % cf.path, s['at'],
+                ctx.inst('compute_frontier|return-call|%d' % bi, {'conditions': q.show_dnf(dnf)[:4]})
+                if q.cond_has(dnf, lambda a: a[0] in ('bool', 'is', 'isnot', 'isin')) or 'bool>::then' in (t_['callee'].get('path') or '') \
+                        or (t_['callee'].get('path') or '').startswith(('std::option::Option::<T>::filter', 'std::option::Option::<T>::and')):
+                    guarded = True
+                else:
+                    ctx.viol('%s|incomplete-front' % cf.path, t_['at'],
                              'compute_frontier returns the minimum on a path that is not guarded by "all replicas have a watermark"', None)
     # update: early exit keeps the entry when the stored watermark is >= the new one; returns only the new front
     up = facts.method(WF, 'update')
@@ -457,3 +484,56 @@ def c02_r4(ctx):
         if has:
             ctx.viol('%s|clone' % adt, facts.adt(adt)['at'],
                      '%s implements Clone: two consumers could split (or two producers duplicate) the element sequence of one link' % adt, None)
+
+
+
+@rule('C06', 'R7', 'the watermark frontier is rebuilt completely at the end of an iteration: reset() restores every field that update() can change')
+def c06_r7(ctx):
+    frontier_reset_complete(ctx)
+
+
+@rule('C17', 'R5', 'the watermark frontier is rebuilt completely at the end of an iteration: reset() restores every field that update() can change')
+def c17_r5(ctx):
+    frontier_reset_complete(ctx)
+
+
+def frontier_reset_complete(ctx):
+    """Start::next calls WatermarkFrontier::reset() when an iteration ends (C17.R2).  Whatever update() (with its private helpers)
+    can write is state of the iteration; a field that reset() leaves alone carries the previous iteration's progress into the next
+    one: the frontier of round n+1 would be computed from round n's knowledge (a watermark forwarded before every replica reported,
+    or withheld).  Decided: mod-set(update) is a subset of mod-set(reset), and every field whose constructed value is a constant
+    holds that constant again when reset() returns."""
+    from ..modset import mod_fields
+    from ..opsum import initial_self_state
+    from ..absint import Interp, Bound
+    from ..facts import pkey
+    facts = ctx.facts
+    up = facts.method(WF, 'update')
+    rs = facts.method(WF, 'reset')
+    mu, mr = mod_fields(facts, up), mod_fields(facts, rs)
+    adt = facts.adts[WF]
+    names = [f['name'] for f in adt['variants'][0]['fields']]
+    if '*' in mu:
+        mu = set(names)
+    ctx.inst('WatermarkFrontier|mod-sets', {'update writes': sorted(mu), 'reset writes': sorted(mr)})
+    for n in sorted(mu):
+        if '*' not in mr and n not in mr:
+            ctx.viol('%s|reset-misses|%s' % (WF, n), rs.at, 'WatermarkFrontier::update can change `%s` but reset() does not restore it: what the previous '
+                     'iteration learned (e.g. that every replica already reported) leaks into the next one, and the frontier of the new iteration is '
+                     'no longer the minimum over all its replicas' % n, None)
+    init, _ = initial_self_state(facts, WF, {})
+    it = Interp(facts, rs, summaries={})
+    try:
+        g = it.explore(0, {})
+    except Bound as e:
+        raise Inconclusive(str(e))
+    for i, fl in enumerate(adt['variants'][0]['fields']):
+        key = pkey([1, '*', ['f', i, fl['name']]])
+        ini = init.get(key)
+        if ini is None or fl['name'] not in mu:
+            continue
+        vals = {repr(g.pre_term[n].get(key)) for n in g.return_nodes()}
+        ctx.inst('reset|%s' % fl['name'], {'constructed': repr(ini), 'after reset': sorted(vals)})
+        if any(g.pre_term[n].get(key) != ini for n in g.return_nodes()):
+            ctx.viol('%s|reset-value|%s' % (WF, fl['name']), rs.at, 'after WatermarkFrontier::reset() the field `%s` is %s, not its constructed value %s'
+                     % (fl['name'], sorted(vals), repr(ini)), None)
